@@ -810,3 +810,25 @@ fn eval_operand<'a>(
         Operand::Value(v) => v,
     }
 }
+
+/// Verification hooks (feature `verif-hooks`): the crate-private stack-frame
+/// and pointer operations of [`Memory`], exactly as the evaluator calls them.
+#[cfg(feature = "verif-hooks")]
+impl Memory {
+    pub fn verif_push_frame(&mut self) {
+        self.push_frame(0, None)
+    }
+
+    /// `true` when a frame was popped (the root frame is kept)
+    pub fn verif_pop_frame(&mut self) -> bool {
+        self.pop_frame().is_some()
+    }
+
+    pub fn verif_offset_by(&mut self, p: usize, offset: usize) -> usize {
+        self.offset_by(p, offset)
+    }
+
+    pub fn verif_copy(&mut self, to: usize, from: usize, size: usize) {
+        self.copy(to, from, size)
+    }
+}
